@@ -3,11 +3,16 @@ Line-protocol driver for the CodeHolder model (C03 label references, C04 relocat
 
 model mode   : `init <x86|x64|a64> <base hex | ->` starts a program; every op line is answered
                `<Err> <size of current section> <unresolved count>` (+ ` <reduction>` for relocate);
-               `dump` prints layout, bytes and label table.
+               `dump` prints layout, bytes and label table;
+               `jitadd <rx hex>` = JitRuntime::add with the span at rx: `<Err> <size> <count> <rx> <code size> <image hex>`,
+               `jitrelease` -> `<Err> <size> <count> live=0`;
+               `newnamed <name>` / `byname <name>` (named labels; `-` = empty name, `@n` = n letters) -> `<Err> <size> <count>` / `id=<n>|invalid`.
 monitor mode : `moninit <arch> <base|->`, `mon <Err> <size> <count> | <op words>` (implementation's answer + op; no output),
                `mondump <dump line of the implementation>` -> `good` / `BAD <why>` (Spec/RefSemantics.judge).
 -/
 import AsmjitVerif.Model.Prog
+import AsmjitVerif.Model.JitAdd
+import AsmjitVerif.Model.Named
 import AsmjitVerif.Spec.RefSemantics
 import Driver.Common
 open AsmjitVerif.Offset
@@ -22,7 +27,8 @@ def parseJ : String → Option JKind
   | "jmp" => some .jmp | "jz" => some .jz | "call" => some .call | "jecxz" => some .jecxz | "loop" => some .loop | _ => none
 def parseM : String → Option MKind
   | "lea" => some .lea | "mov" => some .mov | "addi8" => some .addi8 | "movi32" => some .movi32 | "cmpi16" => some .cmpi16
-  | "ldeax" => some .ldeax | "steax" => some .steax | "ldrax" => some .ldrax | _ => none
+  | "ldeax" => some .ldeax | "steax" => some .steax | "ldrax" => some .ldrax
+  | "fsmov" => some .fsmov | "gsldeax" => some .gsldeax | "fsaddi8" => some .fsaddi8 | _ => none
 def parseA : String → Option AKind
   | "b" => some .b | "bl" => some .bl | "bcond" => some .bcond | "cbz" => some .cbz | "tbz" => some .tbz
   | "adr" => some .adr | "adrp" => some .adrp | "ldr" => some .ldr | _ => none
@@ -90,7 +96,12 @@ def parseDump (ws : List String) : Option Dump :=
 structure DS where
   model : State
   ghost : Ghost
+  added : Bool := false     -- a successful `jitadd` not yet released
+  names : List (String × Nat) := []   -- named labels (Model/Named.lean)
   deriving Inhabited
+
+def decodeName (w : String) : String :=
+  if w == "-" then "" else if w.startsWith "@" then String.mk (List.replicate ((w.drop 1).toString.toNat?.getD 0) 'a') else w
 
 def answer (s : State) (e : Err) : String := s!"{e.name} {s.curOff} {s.count}"
 
@@ -101,7 +112,7 @@ def stepLine (st : DS) (line : String) : DS × String :=
     match parseArch a with
     | some arch =>
       let base := if b == "-" then noBase else (bv64? b).getD noBase
-      ({ st with model := State.init arch base }, "Ok 0 0")
+      ({ st with model := State.init arch base, names := [], added := false }, "Ok 0 0")
     | none => (st, "bad-op")
   | ["dump"] => (st, dumpLine st.model)
   | ["moninit", a, b] =>
@@ -139,6 +150,28 @@ def stepLine (st : DS) (line : String) : DS × String :=
       | some v => if a + decode32 k.kind.fmt (BitVec.ofNat 32 v) == t then (st, "good") else (st, "BAD direct-branch-wrong-target")
       | none => (st, "BAD branch-out-of-buffer")
     | _, _, _, _ => (st, "bad-op")
+  | ["newnamed", nm] =>
+    -- `new_named_label_id(name, kGlobal)`; `-` = the empty name, `@n` = a name of n letters
+    let (n', e) := newNamed { st := st.model, names := st.names } (decodeName nm)
+    ({ st with model := n'.st, names := n'.names }, s!"{e.name} {n'.st.curOff} {n'.st.count}")
+  | ["byname", nm] =>
+    match labelByName st.names (decodeName nm) with
+    | some id => (st, s!"id={id}")
+    | none => (st, "id=invalid")
+  | ["jitadd", b] =>
+    -- `JitRuntime::add`; the span address is the one the real allocator returned (given by the check script)
+    match bv64? b with
+    | some rx =>
+      let (s', r) := jitAdd st.model rx
+      match r with
+      | .ok img => ({ st with model := s', added := true },
+                    answer s' .ok ++ s!" {toHex rx.toNat} {img.length} {if img.isEmpty then "-" else bytesToHex img}")
+      | .noCode => ({ st with model := s', added := false }, s!"NoCodeGenerated {s'.curOff} {s'.count}")
+      | .failed e => ({ st with model := s', added := false }, answer s' e)
+    | none => (st, "bad-op")
+  | ["jitrelease"] =>
+    -- `JitRuntime::release`: kInvalidArgument for the null pointer a failed add left; nothing stays allocated
+    ({ st with added := false }, answer st.model (if st.added then .ok else .invalidArgument) ++ " live=0")
   | ("relocate" :: _) =>
     match parseOp ws with
     | some (.relocate b) =>
